@@ -114,6 +114,20 @@ CHECKS = {
   design_ref="DESIGN.md 3.10, 6 (C14)",
   note="Trusted: TLC, helpers vmk / vcond; answer sequences always end in failure so every while terminates.",
   technique="TLA+ big-step semantics vs transcription of the interpreter checked by TLC; every bounded script replayed on the binary"),
+ "C15": dict(
+  category="model_checking",
+  text="spec/ScriptStatus.tla gives the reference semantics of statuses across top level, functions, sourced files and if-bodies "
+       "(status = last command executed; exit N ends everything; after set -e the first failing command anywhere ends the script "
+       "with its status) and an implementation-shaped variant whose Legacy switches reproduce the pinned code's deviations "
+       "(function status always 0, set -e only leaving the innermost construct). TLC checks that the repaired design agrees with "
+       "the reference for every program of up to 3 (thorough 4) statements and that the legacy switches still disagree; every "
+       "program is rendered to a script (three functions with both header spellings and names with - and _, two sourced files, "
+       "markers logging $0 $1 \"${2}\" $@ ${7}) and run by the real binary with arguments; oracle: marker order, the arguments "
+       "each frame saw, process exit status. Fixed persistence scenarios (source defines function / variable / alias / cd, source "
+       "chain of depth 3, missing arguments) and arguments with special characters complete it.",
+  design_ref="DESIGN.md 3.10, 6 (C15)",
+  note="Trusted: TLC, helper vmk; non-zero status is 3; $@ may arrive joined or split.",
+  technique="TLA+ reference of script statuses vs implementation-shaped variant checked by TLC; every bounded program replayed on the binary"),
  "C06": dict(
   category="model_checking",
   text="TLC explores every interleaving of child status changes (with Linux's report coalescing), foreground-wait iterations, "
